@@ -177,16 +177,41 @@ Proof.
   destruct e; try discriminate R. eauto.
 Qed.
 
+(* a leave attempt for m is met, scanning back, before any JoinGroup request *)
+Lemma left_since_join_spec : forall m h,
+  left_since_join m h = true <->
+  exists pre1 e pre2, h = pre1 ++ e :: pre2 /\ ev_is_leave m e = true /\
+                      forall m', ~ In (HJoinReq m') pre1.
+Proof.
+  intros m h. split.
+  - induction h as [|e t IH]; intro H; [discriminate H|].
+    cbn [left_since_join] in H. destruct (ev_is_leave m e) eqn:L.
+    + exists [], e, t. split; [reflexivity|]. split; [exact L|]. intros m' I; exact I.
+    + assert (G : left_since_join m t = true /\ forall m', e <> HJoinReq m').
+      { destruct e; try discriminate H; (split; [exact H | intros m' X; discriminate X]). }
+      destruct G as [G1 G2]. destruct (IH G1) as [pre1 [e' [pre2 [-> [L' N]]]]].
+      exists (e :: pre1), e', pre2. split; [reflexivity|]. split; [exact L'|].
+      intros m' [I|I]; [exact (G2 m' I) | exact (N m' I)].
+  - intros [pre1 [e [pre2 [-> [L N]]]]].
+    induction pre1 as [|a pre1 IH]; cbn [app left_since_join].
+    + rewrite L. reflexivity.
+    + destruct (ev_is_leave m a); [reflexivity|].
+      destruct a; try (apply IH; intros m' I; apply (N m'); right; exact I).
+      exfalso. apply (N m0). left. reflexivity.
+Qed.
+
 Lemma mon_leave_spec : forall h, mon_leave h = true ->
   (forall post x m pre, h = post ++ HRunExit x (Some m) :: pre ->
-     x = XOffer ERebalance \/ exists e, In e pre /\ ev_is_leave m e = true) /\
+     x = XOffer ERebalance \/
+     exists pre1 e pre2, pre = pre1 ++ e :: pre2 /\ ev_is_leave m e = true /\
+                         forall m', ~ In (HJoinReq m') pre1) /\
   (forall post c pre, h = post ++ HCloseRet c :: pre -> exists x m, In (HRunExit x m) pre).
 Proof.
   intros h M. split.
   - intros post x m pre ->. apply mon_leave_app in M. cbn [mon_leave] in M.
     apply andb_true_iff in M. destruct M as [M _].
     destruct x as [|e|]; [right|destruct e; [left; reflexivity|right|right]|right];
-      cbn in M; apply existsb_exists in M; exact M.
+      cbn in M; apply left_since_join_spec in M; exact M.
   - intros post c pre ->. apply mon_leave_app in M. cbn [mon_leave] in M.
     apply andb_true_iff in M. destruct M as [M _]. cbn in M. apply runexit_exists; exact M.
 Qed.
@@ -199,13 +224,15 @@ Qed.
 
 Lemma mon_leave_full_spec : forall h, mon_leave_full h = true <->
   (forall post x m pre, h = post ++ HRunExit x (Some m) :: pre ->
-     exists e, In e pre /\ ev_is_leave m e = true) /\
+     exists pre1 e pre2, pre = pre1 ++ e :: pre2 /\ ev_is_leave m e = true /\
+                         forall m', ~ In (HJoinReq m') pre1) /\
   (forall post c pre, h = post ++ HCloseRet c :: pre -> exists x m, In (HRunExit x m) pre).
 Proof.
   intro h. split.
   - intro M. split.
     + intros post x m pre ->. apply mon_leave_full_app in M. cbn [mon_leave_full] in M.
-      apply andb_true_iff in M. destruct M as [M _]. cbn in M. apply existsb_exists in M; exact M.
+      apply andb_true_iff in M. destruct M as [M _]. cbn in M.
+      apply left_since_join_spec in M; exact M.
     + intros post c pre ->. apply mon_leave_full_app in M. cbn [mon_leave_full] in M.
       apply andb_true_iff in M. destruct M as [M _]. cbn in M. apply runexit_exists; exact M.
   - induction h as [|e t IH]; intros [A B]; [reflexivity|].
@@ -214,12 +241,14 @@ Proof.
       * cbn. destruct (B [] c t eq_refl) as [x [m I]].
         apply existsb_exists. exists (HRunExit x m). split; [exact I|reflexivity].
       * destruct m as [m|]; [|reflexivity]. cbn.
-        apply existsb_exists. exact (A [] x m t eq_refl).
+        apply left_since_join_spec. exact (A [] x m t eq_refl).
     + apply IH. split.
       * intros post x m pre ->. exact (A (e :: post) x m pre eq_refl).
       * intros post c pre ->. exact (B (e :: post) c pre eq_refl).
 Qed.
 
+(* refutation directions: an exit holding m whose past has no leave attempt for m at all,
+   or whose newest leave attempt for m is older than a JoinGroup request *)
 Lemma mon_leave_full_refute : forall h,
   (exists post x m pre, h = post ++ HRunExit x (Some m) :: pre /\
      forall e, In e pre -> ev_is_leave m e = false) ->
@@ -228,7 +257,18 @@ Proof.
   intros h [post [x [m [pre [-> N]]]]].
   destruct (mon_leave_full (post ++ HRunExit x (Some m) :: pre)) eqn:E; [|reflexivity].
   apply mon_leave_full_spec in E. destruct E as [A _].
-  destruct (A post x m pre eq_refl) as [e [I L]]. rewrite (N e I) in L. discriminate.
+  destruct (A post x m pre eq_refl) as [pre1 [e [pre2 [-> [L _]]]]].
+  rewrite (N e) in L; [discriminate|]. apply in_or_app. right. left. reflexivity.
+Qed.
+
+Lemma mon_leave_full_refute_stale : forall h,
+  (exists post x m pre, h = post ++ HRunExit x (Some m) :: pre /\ left_since_join m pre = false) ->
+  mon_leave_full h = false.
+Proof.
+  intros h [post [x [m [pre [-> N]]]]].
+  destruct (mon_leave_full (post ++ HRunExit x (Some m) :: pre)) eqn:E; [|reflexivity].
+  apply mon_leave_full_app in E. cbn [mon_leave_full] in E. apply andb_true_iff in E.
+  destruct E as [E _]. cbn in E. congruence.
 Qed.
 
 (* F5: the full reading is refuted by the model — sync answers RebalanceInProgress, Close:
@@ -238,12 +278,16 @@ Theorem leave_full_refuted : exists ls s,
   In (HCloseRet 0) (hist s) /\
   In (HRunExit (XOffer ERebalance) (Some 1)) (hist s) /\
   (forall e, In e (hist s) -> ev_is_leave 1 e = false) /\
+  (exists post pre, hist s = post ++ HRunExit (XOffer ERebalance) (Some 1) :: pre /\
+                    left_since_join 1 pre = false) /\
   mon_leave_full (hist s) = false.
 Proof.
   exists f5_witness. eexists. split; [vm_compute; reflexivity|].
-  cbn [hist]. split; [cbn; tauto|]. split; [cbn; tauto|]. split; [|vm_compute; reflexivity].
-  intros e I. cbn in I.
-  repeat (destruct I as [<-|I]; [reflexivity|]). destruct I.
+  cbn [hist]. split; [cbn; tauto|]. split; [cbn; tauto|].
+  split; [|split; [|vm_compute; reflexivity]].
+  - intros e I. cbn in I.
+    repeat (destruct I as [<-|I]; [reflexivity|]). destruct I.
+  - exists [HCloseRet 0]. eexists. split; [reflexivity|]. vm_compute. reflexivity.
 Qed.
 
 (* run exits holding a member id only on the ErrGroupClosed exit (after the leave) and on
@@ -257,10 +301,12 @@ Proof.
   destruct x as [|e|]; [right; reflexivity|destruct e; [left; reflexivity|discriminate G|discriminate G]|discriminate G].
 Qed.
 
-(* on the ErrGroupClosed exit the leave was attempted (sent, or coordinator unreachable) *)
+(* on the ErrGroupClosed exit the leave of the current membership was attempted (sent, or
+   coordinator unreachable): no JoinGroup request lies between it and the exit *)
 Theorem leave_closed_exit : forall w ls s, run (init w) ls = Some s ->
   forall post m pre, hist s = post ++ HRunExit XClosed (Some m) :: pre ->
-  exists e, In e pre /\ ev_is_leave m e = true.
+  exists pre1 e pre2, pre = pre1 ++ e :: pre2 /\ ev_is_leave m e = true /\
+                      forall m', ~ In (HJoinReq m') pre1.
 Proof.
   intros w ls s H post m pre E.
   destruct (proj1 (mon_leave_spec _ (leave_holds w ls s H)) post XClosed m pre E) as [D|D];
